@@ -28,7 +28,9 @@ plan('C13',
          Job(H, 'cond', 'tsan', quick=200, thorough=600, shards=(2, 4), weight=2, batch=10, leakcheck=False),
      ],
      exhaustive={'quick': False, 'thorough': False},
-     assumptions=COMMON_ASSUME + ['orderings of creator and worker are steered by forced delays at the hook points and observed through the hook event sequence; they are not enumerated by a serialising scheduler '
+     assumptions=COMMON_ASSUME + [
+         'in every seventh condition-queue case consumer 0 polls with Condition::wait(0.0) / wait(-0.001): a timed wait whose deadline has passed must still release the mutex while it looks; a library that does not leaves the producers blocked, which is reported as a hang of the case',
+         'orderings of creator and worker are steered by forced delays at the hook points and observed through the hook event sequence; they are not enumerated by a serialising scheduler '
                                   '(the creator busy-waits on a flag without a yield point)',
                                   'a waiter that is still blocked 15 s after its predicate became true and was signalled under the mutex, with every other thread gone, is judged to have lost the signal',
                                   'visibility after join is judged by TSan happens-before analysis (plain writes in the task, plain reads after join) as well as by value'])
